@@ -11,8 +11,11 @@
             entries of the plugin's public state() JSON with its key; dir = listing of the auto-save directory (files, with
             content hashes).  hdr.tr[t].base = the base name of the transfer's file name; hdr.env = the files the driver
             itself put there: [{"name","len","hash","at"}] (at = wire index at which it appears, 0 = before the run)
-     {"ev":"saved","t":t,"entry":e,"ok":b,"eq":b,"len":l,"hash":h}   apply_command("save") on state entry e (key of transfer t):
-            ok = command succeeded and wrote a file; eq = its bytes equal the original file
+     {"ev":"saved","t":t,"list":L,"entry":e,"via":"cmdctx"|"index","ok":b,"eq":b,"len":l,"hash":h}
+            apply_command("save") issued from entry e of list L of the state tree ("top" = by occurrence, "Sorted by name", any
+            other grouping) with THAT ENTRY'S OWN command context (via = "cmdctx"; entries without one: top-level ones are tried with
+            their index, via = "index"); t = the transfer the entry names (key in its tooltip); ok = command succeeded and wrote a
+            file; eq = its bytes equal the original of transfer t
      {"ev":"tree","new":[{"inside":b,"t":t,"len":l,"hash":h}],"pre_ok":b}   files that appeared in the sentinel directory
             around the configured auto-save directory: inside = below the auto-save dir, t = transfer whose original
             bytes equal the file (0 = none); pre_ok = every pre-existing file still has its old bytes
@@ -82,6 +85,8 @@ Saved == /\ Ev("saved") /\ phase = "running" /\ i = Len(W)
          /\ Cur.t \in 1..NTr
          /\ (Cur.ok => /\ Cur.eq /\ Cur.len = hdr.tr[Cur.t].size /\ Cur.hash = hdr.tr[Cur.t].hash
                        /\ AllArrived(W, Cur.t, Lens(Cur.t), Len(W)))
+         \* an entry that offers a save context (in whatever list of the state tree) must be savable through it
+         /\ ((Cur.via = "cmdctx" /\ Announced(W, Cur.t, Len(W)) /\ AllArrived(W, Cur.t, Lens(Cur.t), Len(W))) => Cur.ok)
          /\ savedOk' = (IF Cur.ok THEN savedOk \cup {Cur.t} ELSE savedOk)
          /\ UNCHANGED <<case, phase, hdr, i, lastK, treeSeen, seen, viol, kfUsed>>
 
